@@ -35,6 +35,10 @@ CHECKS['C15'] = ('3/C15', 'The real running-maximum updates (coolant, per-duct m
                  'one to three times from an arbitrary previous peak to arbitrary symbolic fields; every ordering is a path and the '
                  'maximum / height / profile / untouched-duct claims are SMT queries; induction over the fold gives the sweep maximum.')
 
+CHECKS['C11'] = ('3/C11', 'The real duct-wall solvers run with all temperatures, film coefficients, conductivity, thickness and wall '
+                 'power symbolic on a real bundle (1-3 ducts) and on both low-fidelity regions; both flux boundary conditions, the '
+                 'mid-wall closed form and the unheated ordering are SMT queries per wall cell.')
+
 NOT_APPLICABLE = {
     'C16': ('No symbolic dimension for a solver: process schedules/multiprocessing/file output, bitwise IEEE determinism, and '
             'object-identity/type mutation of the input dictionary on `is None`/key-presence branches (DESIGN section 4).'),
